@@ -64,6 +64,9 @@ fn run_on<C: DateRoll>(ctx: &mut Ctx, cal: &C, spec: &CalSpec, starts: &[i64], r
         );
         return;
     }
+    if spec.has_unsorted_holidays() {
+        ctx.class("holiday-list:not-chronological");
+    }
     let probe = Probe::new(cal, PROBE_BUDGET);
     let sd = spec.describe();
     let mut panicked_sigs: std::collections::HashSet<String> = Default::default();
@@ -291,6 +294,7 @@ impl Prop for C05 {
             v.push(format!("add_days:F:{}", c));
         }
         v.push("calendar:inside-CalType-container".to_string());
+        v.push("holiday-list:not-chronological".to_string());
         v
     }
     fn min_evaluations(&self, tier: Tier) -> u64 {
